@@ -52,10 +52,39 @@ def component(dd, ctx, acc):
             cmd = vspec.cmdline(spf, log)
             argv = ['--timeout', '0.4'] + (['--memout', str(memout)] if memout else []) + ['in.smt2', 'out.smt2'] + cmd
             env.set_options(dd, argv)
-            t0 = time.time()
-            ri = dd.checker.execute(cmd, fn, 0.4)
-            dt = time.time() - t0
             case = dict(kind='component', fault=KINDS[kind], memout=memout)
+            # execute() runs in a forked child so that a call that never
+            # returns (no time limit on the command) is observed, not shared
+            import multiprocessing
+            rd, wr = multiprocessing.get_context('fork').Pipe(False)
+
+            def child():
+                t0 = time.time()
+                ri_ = dd.checker.execute(cmd, fn, 0.4)
+                wr.send((tuple(ri_), time.time() - t0))
+                os._exit(0)
+
+            pr = multiprocessing.get_context('fork').Process(target=child)
+            pr.start()
+            if rd.poll(0.4 + 8.0):
+                ri_t, dt = rd.recv()
+                pr.join(5)
+            else:
+                ri_t, dt = None, None
+            if ri_t is None:
+                lg = vspec.read_log(log)
+                acc.violation(f'stall/component-{KINDS[kind]}',
+                              f'checker.execute did not return within 8 s of its 0.4 s limit on a command that {KINDS[kind]}s', case)
+                for e in lg:
+                    try:
+                        os.kill(e['pid'], 9)
+                    except OSError:
+                        pass
+                pr.kill()
+                pr.join(5)
+                acc.case(case, nontrivial=True, classes=['component', 'component-' + KINDS[kind]])
+                continue
+            ri = dd.checker.RunInfo(*ri_t)
             if dt > 0.4 + 3.0:
                 acc.violation(f'component-slow/{KINDS[kind]}', f'execute returned after {dt:.2f}s (limit 0.4s)', case)
             lg = vspec.read_log(log)
@@ -119,8 +148,11 @@ def fault_case(draw):
 
 def run_fault_case(case, acc, wd):
     limit = case['opts']['timeout']
+    if 'stall' in acc.violations:
+        acc.skip('stall bucket saturated')
+        return False, ['run']
     r = e2e.run_ddsmt(wd, case['text'], case['spec'], case['opts'], mode='launcher',
-                      plan=dict(trace=True, stop_on_repeat=True, max_accepts=150), wall_limit=150)
+                      plan=dict(trace=True, stop_on_repeat=True, max_accepts=150), wall_limit=75)
     classes = ['run', f'strategy-{case["opts"]["strategy"]}', f'jobs-{case["opts"]["jobs"]}']
     faults = {}
     for e in r.log:
@@ -131,7 +163,7 @@ def run_fault_case(case, acc, wd):
     if r.timed_out:
         old = [s for s in getattr(r, 'survivors_at_timeout', []) if 'binary' in s[2] and s[3] > 10 * limit]
         if old:
-            acc.violation('stall', f'ddSMT still running after 150 s; command child older than 10x the limit: {old[:2]}', case)
+            acc.violation('stall', f'ddSMT still running after 75 s; command child older than 10x the limit: {old[:2]}', case)
         else:
             acc.skip('inconclusive: wall budget exceeded without stall witness')
             acc.inconclusive.append(dict(why='wall budget', case=case))
